@@ -97,6 +97,11 @@ func (n *Names) CoqDump(st *StepRec, blockName func(types.BlockID) uint64, full 
 // CoqCase renders a history of the node as a Run_C02 case. Blocks are named by
 // their tree index (unknown blocks cannot occur: the store only sees tree blocks).
 func (nd *Node) CoqCase() string {
+	for _, st := range nd.Steps {
+		if st.Node < 0 {
+			return "" // the store was handed a block the tree does not know (reported by Judge): no case
+		}
+	}
 	n := nd.Names
 	blockName := func(id types.BlockID) uint64 {
 		if x, ok := nd.T.ByID[id]; ok {
